@@ -1,5 +1,6 @@
 import WhVerif.Util.Proto
 import WhVerif.Model.C08
+import WhVerif.Model.C08Conv
 import WhVerif.Spec.C08
 namespace WhVerif.Driver.C08
 open Lean WhVerif.Proto WhVerif.C08
@@ -103,8 +104,47 @@ def tableRat (inst : Inst) (col : Nat → ((Nat → Nat → Bool) → Rat) × Ra
       ofList (fun g => ratStr (nt.1 (fun t a => genoOf inst.parts i t a == g) / nt.2)) [0, 1, 2])
     cols) (List.range inst.nInd)
 
+/-- exact rational value of a finite double (sign, exponent, mantissa) as (numerator, denominator) -/
+def floatRat (x : Float) : Int × Nat :=
+  let b := x.toBits.toNat
+  let sign : Int := if b / 2 ^ 63 = 1 then -1 else 1
+  let e := (b / 2 ^ 52) % 2048
+  let m := b % 2 ^ 52
+  -- value = mant · 2^(ex - 1075) with mant = m (+ 2^52 if normal), ex = max e 1
+  let mant := if e = 0 then m else m + 2 ^ 52
+  let ex := if e = 0 then 1 else e
+  if ex ≥ 1075 then (sign * (mant * 2 ^ (ex - 1075) : Nat), 1) else (sign * (mant : Nat), 2 ^ (1075 - ex))
+
 def handle (op : String) (j : Json) : Option Json :=
-  if op == "c08.fbrat" then
+  if op == "c08.conv" then
+    -- what write_genotypes derives from one likelihood triple and the called genotype (null = ./.):
+    -- GL = [max(log10 j, -1000) if j > 0 else -1000], geno_q = sum of the others (Python `sum`: 0 + x + y),
+    -- GQ = min(round(-10 log10 geno_q), 10000) if geno_q > 0 else 10000 – evaluated EXACTLY on the rational value of geno_q
+    match (getObj? j "gl").bind floatList? with
+    | some [l0, l1, l2] =>
+      let ls := [l0, l1, l2]
+      let gl := ls.map (fun l => fbits (glOf Float.log10 (-1000.0) l))
+      let g? : Option Nat := getNat? j "g"
+      match g? with
+      | none => some (Json.mkObj [("GL", Json.arr gl.toArray), ("GQ", Json.null)])
+      | some g =>
+        let q : Float := (List.range 3).foldl (fun acc i => if i = g then acc else acc + ls.getD i 0) 0.0
+        let (n, d) := floatRat q
+        some (Json.mkObj [("GL", Json.arr gl.toArray), ("q", fbits q), ("GQ", ofInt (gqOf n d)),
+          ("mass_model", fbits (gqMass (fun i => ls.getD i 0) g))])
+    | _ => some badInput
+  else if op == "c08.gq" then
+    -- GQ of an exact rational mass "num/den"; and the exact threshold test for likelihood a/b and integer phred threshold
+    match getObj? j "q" with
+    | some v =>
+      match ratOf? v with
+      | some q => some (Json.mkObj [("GQ", ofInt (gqOf q.num q.den))])
+      | none => some badInput
+    | none =>
+      match getNat? j "a", getNat? j "b", getNat? j "thr" with
+      | some a, some b, some thr => some (Json.mkObj [("above", Json.bool (aboveThr a b thr))])
+      | _, _, _ => some badInput
+  else if op == "c08.fbrat" then
     -- the posterior over exact rationals: the model at `K = ℚ` with scaling 1 (= the brute-force posterior by
     -- `forward_backward_posterior`; with "brute": true the plain enumeration is evaluated as well and must be identical)
     match parseInst j with
